@@ -89,6 +89,10 @@ var replyWitnesses = []bWitness{
 	{"commands-execute-text-only-result", "commands.Execute", []string{`<iq type="result" id="$ID">text</iq>`}},
 	{"commands-foreach-callback-error", "commands.ForEach", []string{`<iq type="result" id="$ID"><command xmlns="http://jabber.org/protocol/commands" node="config" sessionid="s" status="executing"><x xmlns="jabber:x:data" type="form"><bogus/></x></command></iq>`}},
 	{"commands-foreach-three-steps", "commands.ForEach", []string{`<iq type="result" id="$ID">` + canonCmdExec + `</iq>`, `<iq type="result" id="$ID">` + canonCmdExec + `</iq>`, `<iq type="result" id="$ID">` + canonCmdDone + `</iq>`}},
+	{"roster-fetch-comment-in-reply", "roster.Fetch", []string{`<iq type="result" id="$ID"><query xmlns="jabber:iq:roster"><item jid="a@b.example"/><!-- c --><item jid="c@d.example"/></query></iq>`}},
+	{"roster-fetch-connection-drops-mid-reply", "roster.Fetch", []string{`<iq type="result" id="$ID"><query xmlns="jabber:iq:roster"><item jid="a@b.example"/>`}},
+	{"disco-items-malformed-reply", "disco.FetchItems", []string{`<iq type="result" id="$ID"><query xmlns="http://jabber.org/protocol/disco#items"><item jid="a.example"/><a></b></query></iq>`}},
+	{"version-unterminated-reply", "version.Get", []string{`<iq type="result" id="$ID"><query xmlns="jabber:iq:version"><name>Exodus</name><version>0.7.0.4<?version><os>Windows-XP 5.01.2600</os></query></iq>`}},
 	{"muc-getconfig-empty-form", "muc.GetConfig", []string{`<iq type="result" id="$ID"><query xmlns="http://jabber.org/protocol/muc#owner"><x xmlns="jabber:x:data"/></query></iq>`}},
 	{"upload-bad-urls", "upload.GetSlot", []string{`<iq type="result" id="$ID"><slot xmlns="urn:xmpp:http:upload:0"><put url="http://[::1"><header name="">x</header></put><get url="%zz"/></slot></iq>`}},
 	{"bob-bad-base64", "bin.Get", []string{`<iq type="result" id="$ID"><data xmlns="urn:xmpp:bob" max-age="-1">!!!=</data></iq>`}},
